@@ -265,7 +265,7 @@ func runEngineGate(c Case, emit Emitter) {
 	// let everybody run to the end
 	atomic.StoreInt32(&g.open, 1)
 	stuck := false
-	deadline := time.Now().Add(10 * time.Second)
+	deadline := time.Now().Add(30 * time.Second)
 	for _, th := range ths {
 		for th.where != "done" {
 			if th.where == "op" || th.where == "gate" {
@@ -338,7 +338,7 @@ func runEngineFreeChild(c Case, emit Emitter) {
 		select {
 		case <-fin:
 			emit(engConcEvent(c, cc, "free", ctx, calls))
-		case <-time.After(10 * time.Second):
+		case <-time.After(30 * time.Second):
 			mu.Lock()
 			cp := append([]engCallRec(nil), calls...)
 			mu.Unlock()
